@@ -18,7 +18,8 @@ EXTENDS Integers, Sequences, FiniteSets, TLC, Json
 
 CONSTANTS MaxLen
 
-Entries == {"AndersonCD.solve", "AndersonCD.path", "MultiTaskBCD.path", "Lasso.path", "ElasticNet.path",
+Entries == {"AndersonCD.solve", "AndersonCD.path", "MultiTaskBCD.path", "MultiTaskLasso.path", "MultiTaskLasso.refit",
+            "Lasso.path", "ElasticNet.path",
             "MCPRegression.path", "WeightedLasso.path", "Lasso.refit", "ElasticNet.refit",
             "SparseLogisticRegression.refit", "LinearSVC.refit", "GroupLasso.refit", "SqrtLasso.path", "ProxNewton.solve",
             "GroupBCD.solve"}
@@ -34,7 +35,7 @@ Changes == {"alpha_down", "alpha_up", "same", "toggle_intercept", "alpha_down_fa
             "new_rows"}
 
 IsSolve(e) == e \in {"AndersonCD.solve", "ProxNewton.solve", "GroupBCD.solve"}
-IsPath(e) == e \in {"AndersonCD.path", "MultiTaskBCD.path", "Lasso.path", "ElasticNet.path",
+IsPath(e) == e \in {"AndersonCD.path", "MultiTaskBCD.path", "MultiTaskLasso.path", "Lasso.path", "ElasticNet.path",
                     "MCPRegression.path", "WeightedLasso.path", "SqrtLasso.path"}
 IsRefit(e) == ~IsSolve(e) /\ ~IsPath(e)
 
